@@ -32,9 +32,34 @@ reg("C20",
     outside=_OUTSIDE,
     )
 
+_GRAPH_ANCHORS = _ANCHORS + ["include/hgraph/lib/std/operators/impl/record_replay_memory_impl.h", "include/hgraph/lib/testing/record_replay.h",
+                            "include/hgraph/lib/testing/record_replay_buffer.h", "src/hgraph/types/record_replay.cpp", "include/hgraph/types/record_replay.h"]
+_GRAPH_BOUNDS = ("real graph replay_impl<S>('in') -> dense_record_impl('out') (node structs from record_replay_memory_impl.h, included directly) run in simulation from MIN_ST, one "
+                 "cycle per MIN_TD, for NCYC+2 cycles; the seeded buffer 'in' is the recording of a history produced as in C20_delta (same shapes, drivers and bounds NCYC / NPRIM / "
+                 "NPRIM5 / NKEYS, symbolic payloads): in[c] = capture_delta if the tick is observable, a hole otherwise; read back with testing::get_recorded_deltas")
+reg("C20",
+    name="C20_graph", src="harness/C20_graph.cpp",
+    anchor_files=_GRAPH_ANCHORS,
+    quick=dict(defs=dict(NCYC=3, NPRIM=1, NPRIM5=1, NKEYS=2), symx=dict(shards=16, **{"max-wall": 900, "shard-depth": 8})),
+    thorough=dict(defs=dict(NCYC=3, NPRIM=2, NPRIM5=1, NKEYS=2), symx=dict(shards=16, **{"max-wall": 3000, "shard-depth": 10})),
+    reach=["end", "two_ticks", "gap_then_tick", "key_removed", "child_only_tick", "empty_structural_tick", "class_empty_delta_on_valid_collection"],
+    bounds=_GRAPH_BOUNDS,
+    outside=_OUTSIDE + "; sparse (absolute-time) recording and replay with a recordable_id; compare; the record / replay operator front door (wire<stdlib::record>)",
+    assumptions=["replay_impl / dense_record_impl are wired directly as static nodes (wire<stdlib::replay_impl, S>), not through the operator registry; "
+                 "record_replay_memory_impl.cpp (registration only) is not linked"],
+    )
+reg("C20",
+    name="C20_graph_long", src="harness/C20_graph.cpp", tiers=("thorough",),
+    anchor_files=_GRAPH_ANCHORS,
+    thorough=dict(defs=dict(NCYC=4, NPRIM=1, NPRIM5=1, NKEYS=2), symx=dict(shards=16, **{"max-wall": 3000, "shard-depth": 10})),
+    reach=["end", "two_ticks", "gap_then_tick", "key_removed", "child_only_tick"],
+    bounds="as C20_graph with 4 cycles and one key-set primitive per collection per cycle",
+    outside=_OUTSIDE,
+    )
+
 META = dict(
     level="bounded symbolic model checking of the type-erased delta round trip (ts_delta.cpp capture_delta / delta_is_observable / apply_delta and the per-kind TSDataOps "
           "capture/apply/has-effect implementations) on stand-alone real endpoints: every tick history up to the bound for nine schema shapes, all payloads symbolic",
-    note="C20_graph (replay_impl -> dense_record_impl in a real graph) is registered only when the record/replay node structs can be compiled by clang 14 (see notes/C20.md); "
+    note="C20_graph runs the real replay_impl -> dense_record_impl node structs in a real graph (record o replay = id on buffers); "
          "two input classes that contradict the literal statement are listed in known_findings.jsonl under their own assertion ids",
 )
